@@ -75,7 +75,12 @@ def _replay_main():
 
 
 # ----------------------------------------------------------------------------------------------
-def replay(w, src):
+def replay_random(w, src, values, trace):
+    """engine cross-check: like replay, with values and choices supplied by the caller"""
+    return replay(w, src, values, trace)
+
+
+def replay(w, src, values_override=None, trace_override=None):
     import z3
 
     sys.path.insert(0, src)
@@ -97,6 +102,8 @@ def replay(w, src):
     trace = {}
     for label, d in w["trace"]:
         trace.setdefault(label, []).append(d)
+    if values_override is not None:
+        values, trace = values_override, trace_override
 
     class ReplayCtx(PathCtx):
         def __init__(self):
@@ -179,7 +186,27 @@ def replay(w, src):
         "inputs": h.inputs,
         "failed_preconditions": ctx.failed_assumptions,
         "error": err,
+        "stubs_in_use": sorted(h.I.stubs) + sorted("%s.%s" % k for k in h.I.overrides) + sorted(h.I.hooks),
     }
+
+
+class _Hashed:
+    """an object whose hash is a given value (tuple hashing combines element hashes, not the hashes of those ints)"""
+
+    def __init__(self, h):
+        self.h = h
+
+    def __hash__(self):
+        return self.h
+
+
+def _hash_eval(v):
+    if isinstance(v, tuple) and len(v) == 2 and v[0] == "hash":
+        p = v[1]
+        if isinstance(p, tuple):
+            return hash(tuple(_Hashed(_hash_eval(x)) for x in p))
+        return hash(p)
+    return v
 
 
 def _import_native(qualname):
@@ -209,6 +236,14 @@ class Converter:
             return self.memo[id(v)]
         if isinstance(v, tuple):
             return tuple(self.conv(x) for x in v)
+        from pyvc.ext import PRes as _PRes
+
+        if isinstance(v, _PRes):
+            import pyparsing as pp
+
+            out = pp.ParseResults([self.conv(x) for x in v.items])
+            self.memo[id(v)] = out
+            return out
         if isinstance(v, PList):
             out = []
             self.memo[id(v)] = out
@@ -226,6 +261,11 @@ class Converter:
             if v.ndim == 2 and v.shape[1] == 0:
                 return np.array([[] for _ in range(v.shape[0])]) if v.shape[0] else np.array([[]])
             return np.array(self.conv_list(v.data), dtype=float)
+        from pyvc.ext import PRes
+
+        if isinstance(v, Obj) and v.cls.is_enum:
+            cls = _import_native(v.cls.module.name + ":" + v.cls.name)
+            return getattr(cls, v.attrs["name"])
         if isinstance(v, Obj):
             cls = _import_native(v.cls.module.name + ":" + v.cls.name)
             o = cls.__new__(cls)
@@ -247,6 +287,8 @@ def describe(v, depth=0):
 
     if v is None or isinstance(v, (bool, str)):
         return v
+    if isinstance(v, np.bool_):
+        return bool(v)
     if isinstance(v, (int, float, np.floating, np.integer)):
         return float(v)
     if isinstance(v, (list, tuple)):
@@ -257,6 +299,17 @@ def describe(v, depth=0):
         return {"dict": sorted(((str(describe(k)), describe(x)) for k, x in v.items()), key=lambda kv: kv[0])}
     if isinstance(v, BaseException):
         return {"exception": type(v).__name__}
+    import enum as _enum
+
+    if isinstance(v, _enum.Enum):
+        return {"enum": v.name}
+    try:
+        import pyparsing as _pp
+
+        if isinstance(v, _pp.ParseResults):
+            return [describe(x, depth + 1) for x in v]
+    except Exception:
+        pass
     cls = type(v).__name__
     if hasattr(v, "__dict__") and depth < 6:
         return {cls: {k: describe(x, depth + 1) for k, x in sorted(vars(v).items())}}
@@ -347,7 +400,10 @@ class ReplayH:
                 rec["agrees"] = nkind == "raise" and ndesc["exception"] == out.exc_name
             else:
                 try:
-                    idesc = describe(Converter().conv(out.value))
+                    iv = out.value
+                    if isinstance(iv, tuple) and len(iv) == 2 and iv[0] in ("hash", "idhash"):
+                        iv = _hash_eval(iv)  # the interpreter's structural hash token -> the hash CPython computes
+                    idesc = describe(Converter().conv(iv))
                 except Exception as e:
                     idesc = {"unconvertible": repr(e)}
                 rec["interpreter"] = idesc
